@@ -115,6 +115,8 @@ def load_known():
 
 def run_rules(prop, facts, tier, facts_default=None):
     ctx = Ctx(prop, facts, tier, facts_default)
+    for line in getattr(facts, "norm_log", []):
+        ctx.remark("normalisation: " + line)
     mod = importlib.import_module("rules.%s" % prop.lower())
     try:
         mod.check(ctx)
